@@ -568,7 +568,11 @@ impl<'a> Gen<'a> {
             let body = self.cnf(cur, vars, rules_before, nest - 1, rc, false);
             json!({"c":"when","w":w,"lets":[],"b":body})
         } else if roll < 28 && named_ok && self.cfg.named && !rules_before.is_empty() {
-            json!({"c":"named","n":self.r.pick(rules_before),"neg":self.r.chance(1,4)})
+            let mut c = json!({"c":"named","n":self.r.pick(rules_before),"neg":self.r.chance(1,4)});
+            if self.cfg.messages && self.r.chance(1, 3) {
+                c["msg"] = json!(format!("n{}", self.r.below(1000)));
+            }
+            c
         } else if roll < 34 && rc && self.cfg.type_blocks && nest > 0 {
             let tn = *self.r.pick(&["AWS::S3::Bucket", "AWS::EC2::Instance", "Custom::Thing"]);
             let res = cur.and_then(|c| self.peek(Some(c), &[json!({"p":"key","k":cps("Resources")}), json!({"p":"all"})]));
